@@ -117,7 +117,7 @@ def step (st : St) (ws : List String) : St × String :=
   match ws with
   | "frame" :: rest => frameOp st rest
   | ["extents"] =>
-    (st, s!"ok dbuf={demuxBufExtent} dcls={demuxClasses} dsub={demuxSubclasses} dpkt={demuxPktExtent} sbuf={sepBufExtent} scls={sepClasses} ssub={sepSubclasses} misc={demuxMaxClass}")
+    (st, s!"ok dbuf={demuxBufExtent} dcls={demuxClasses} dsub={demuxSubclasses} dmaxsub={demuxMaxSubclasses} dpkt={demuxPktExtent} sbuf={sepBufExtent} scls={sepClasses} ssub={sepSubclasses} misc={demuxMaxClass}")
   | ["d", h] =>
     match pair h with
     | none => (st, "rej parse")
